@@ -157,12 +157,13 @@ pub fn push_item(ctx: &Arc<RunCtx>, p: usize) {
         let tx = st.mpsc_tx.lock().unwrap().clone();
         if let Some(tx) = tx { let _ = tx.unbounded_send(op); }
     } else {
+        let keep = ctx.prog.pipes[p].keep_waker;
         let waker = {
             let mut c = st.input.lock().unwrap();
             c.q.push_back(op);
-            c.waker.take()
+            if keep { c.waker.clone() } else { c.waker.take() }
         };
-        if let Some(w) = waker { w.wake(); }
+        if let Some(w) = waker { if keep { w.wake_by_ref() } else { w.wake() } }
     }
     rec.ret.store(clock(), ORD);
 }
@@ -173,12 +174,13 @@ pub fn close_input(ctx: &Arc<RunCtx>, p: usize) {
         let tx = st.mpsc_tx.lock().unwrap().take();
         std::mem::drop(tx);
     } else {
+        let keep = ctx.prog.pipes[p].keep_waker;
         let waker = {
             let mut c = st.input.lock().unwrap();
             c.closed = true;
-            c.waker.take()
+            if keep { c.waker.clone() } else { c.waker.take() }
         };
-        if let Some(w) = waker { w.wake(); }
+        if let Some(w) = waker { if keep { w.wake_by_ref() } else { w.wake() } }
     }
     st.closed_stamp.store(clock(), ORD);
 }
